@@ -865,4 +865,5 @@ func c02Driver(d *fw.D) {
 	if got := len(d.Sets["depth_history_excursions_seen"]); got < len(c02Excursions)*len(c02ExcPositions) {
 		d.Inconclusive(fmt.Sprintf("depth-history block: %d of %d (excursion kind, position) pairs judged", got, len(c02Excursions)*len(c02ExcPositions)))
 	}
+	c02CalFloor(d, l.nCallee)
 }
